@@ -222,7 +222,7 @@ public:
                 p.ops.append(mkop(QStringLiteral("mgr"), { (qint64)r.uniform(kThunks) }, {}, salt));
                 break;
             case 3:
-                p.ops.append(mkop(QStringLiteral("reply"), { (qint64)r.uniform(8), r.weighted({ 35, 30, 20, 15 }), r.weighted({ 40, 12, 8, 17, 17, 6 }), r.chance(0.15) }, {}, salt));
+                p.ops.append(mkop(QStringLiteral("reply"), { (qint64)r.uniform(8), r.weighted({ 32, 27, 18, 13, 5, 5 }), r.weighted({ 40, 12, 8, 17, 17, 6 }), r.chance(0.15) }, {}, salt));
                 break;
             case 4:
                 p.ops.append(mkop(QStringLiteral("dec"), { (qint64)r.uniform(6), r.chance(0.8) }, {}, salt));
@@ -260,6 +260,7 @@ public:
             TrackedPtr issuing;                  // request whose API call is running right now
             QString deliveringId;                // id attribute of the IQ being delivered to the client right now
             bool deliveringForged = false;
+            bool deliveringRequest = false;   // the iq being delivered is a request (get/set) that merely reuses the id of a pending request
             TrackedPtr deliveringOwner;
             int maxOutstanding = 0;
             bool adversarialBetween = false;
@@ -376,6 +377,10 @@ public:
                 if (t->fired > 1) {
                     w.violation(QStringLiteral("completed_twice"), QStringLiteral("C07:request_completed_more_than_once:") + (t->raw ? QStringLiteral("raw") : t->what),
                                 QStringLiteral("request #%1 (%2) completed %3 times").arg(t->no).arg(t->what).arg(t->fired));
+                }
+                if (!deliveringId.isEmpty() && deliveringRequest && t->wireIds.contains(deliveringId)) {
+                    w.violation(QStringLiteral("completed_by_wrong_sender"), QStringLiteral("C07:completed_by_a_stanza_that_is_not_a_response:") + (t->raw ? QStringLiteral("raw") : t->what),
+                                QStringLiteral("request #%1 (%2) completed while an iq of type get/set that reuses its id was being delivered").arg(t->no).arg(t->what));
                 }
                 if (!deliveringId.isEmpty() && deliveringForged && t->wireIds.contains(deliveringId)) {
                     w.violation(QStringLiteral("completed_by_wrong_sender"), QStringLiteral("C07:completed_or_cancelled_by_reply_from_another_entity:") + (t->raw ? QStringLiteral("raw") : t->what),
@@ -620,6 +625,7 @@ public:
                 }
                 deliveringId.clear();
                 deliveringForged = false;
+                deliveringRequest = false;
                 deliveringOwner = nullptr;
                 WireReq *answered = nullptr;
                 bool legit = false;
@@ -629,6 +635,14 @@ public:
                         QDomDocument doc;
                         QDomElement el = simxml::parse(seg, doc);
                         const QString type = el.attribute(QStringLiteral("type"));
+                        if (type == QLatin1String("get") || type == QLatin1String("set")) {
+                            for (const auto &wr : wire) {
+                                if (wr.id == el.attribute(QStringLiteral("id")) && !wr.consumed) {
+                                    deliveringId = wr.id;
+                                    deliveringRequest = true;
+                                }
+                            }
+                        }
                         if (type == QLatin1String("result") || type == QLatin1String("error")) {
                             deliveringId = el.attribute(QStringLiteral("id"));
                             const QString from = el.attribute(QStringLiteral("from"));
@@ -685,6 +699,7 @@ public:
                 }
                 deliveringId.clear();
                 deliveringForged = false;
+                deliveringRequest = false;
                 deliveringOwner = nullptr;
                 return true;
             };
@@ -776,6 +791,15 @@ public:
                         case 2:
                             xml = head + " type='result'><unexpected xmlns='urn:example:unexpected'><child/></unexpected></iq>";
                             w.fault("reply_unexpected_payload");
+                            break;
+                        case 4:
+                            // not a reply at all: the entity's own request, which happens to use the same id (ids are unique per sender only)
+                            xml = head + " type='get'><query xmlns='jabber:iq:version'/></iq>";
+                            w.fault("request_of_the_addressee_reusing_the_id");
+                            break;
+                        case 5:
+                            xml = head + " type='set'><query xmlns='jabber:iq:roster'><item jid='carol@contacts.example' subscription='both'/></query></iq>";
+                            w.fault("request_of_the_addressee_reusing_the_id");
                             break;
                         case 3: {
                             int n = (int)r.uniform(4);
